@@ -303,6 +303,44 @@ func runC15(c *Check) {
 			c.Bad("C15-R3", "computeStateRoot ⟂ reads-only-the-datastore", fnName(root), p.Pos(root.Pos()), "the state root reads "+strings.Join(impure, ", "), nil)
 		}
 	}
+	// ---- R3 (cont.): what ExecuteTxs hands back is the root computed from the datastore in this
+	// very call, on every success return (not a remembered one)
+	{
+		g := BuildECFG(p, exec, ExpandOpts{MaxDepth: 0})
+		nret, bad := 0, ""
+		for _, x := range g.Exits {
+			if g.ExitClass(x) == rcA {
+				continue
+			}
+			nret++
+			t := TermOf(spilledResult(x.In.(*ssa.Return), 0), x.Ctx)
+			fresh := false
+			for _, leaf := range flattenPhi(t) {
+				l := leaf
+				if l.Op == "extract" {
+					l = l.Args[0]
+				}
+				if cv, ok := l.V.(*ssa.Call); ok && l.Op == "call" && cv.Common().StaticCallee() == root {
+					fresh = true
+				} else {
+					fresh = false
+					bad = trunc(leaf.String(), 80)
+					break
+				}
+			}
+			if !fresh && bad == "" {
+				bad = trunc(t.String(), 80)
+			}
+		}
+		switch {
+		case nret == 0:
+			c.Unk("C15-R3", "ExecuteTxs ⟂ returns-the-root-computed-in-this-call", fnName(exec), "", "anchor lost: no success return")
+		case bad == "":
+			c.OK("C15-R3", "ExecuteTxs ⟂ returns-the-root-computed-in-this-call", fnName(exec), p.Pos(exec.Pos()), "every success return hands back the result of the state-root function called in this execution", true)
+		default:
+			c.Bad("C15-R3", "ExecuteTxs ⟂ returns-the-root-computed-in-this-call", fnName(exec), p.Pos(exec.Pos()), "a success return hands back "+bad+", not the root computed from the datastore in this call: the root then depends on what the executor remembered (restarts, re-initialisation), not only on the executed transactions", nil)
+		}
+	}
 	// ---- R2
 	{
 		g := BuildECFG(p, exec, ExpandOpts{MaxDepth: 2, Stop: func(f *ssa.Function) bool { return f == root }})
@@ -411,6 +449,6 @@ func runC15(c *Check) {
 	}
 	c.MinInstances("C15-R1", 5)
 	c.MinInstances("C15-R2", 3)
-	c.MinInstances("C15-R3", 3)
+	c.MinInstances("C15-R3", 4)
 	c.MinInstances("C15-R4", 1)
 }
